@@ -431,7 +431,9 @@ class SymPattern:
         if c is not None:
             return [SymStr.of(x) for x in self.rx.split(c, maxsplit)]
         if maxsplit != 0 or self.groups:
-            raise Unsupported('re.split with maxsplit / groups')
+            # not modelled: concretise (forks over the feasible values; normally
+            # the path condition already determines the text)
+            return [SymStr.of(x) if isinstance(x, str) else x for x in self.rx.split(s.concretize(), maxsplit)]
         lo = self.tree.getwidth()[0]
         if lo < 1:
             raise Unsupported('re.split with a possibly empty separator')
@@ -557,7 +559,7 @@ class SymPattern:
                 if m is not None:
                     out.append(m.group(1 if self.groups else 0))
             return out
-        raise Unsupported('findall on a flat symbolic string')
+        return [SymStr.of(x) if isinstance(x, str) else x for x in self.rx.findall(s.concretize())]
 
     def finditer(self, s):
         if not isinstance(s, SymStr):
@@ -565,7 +567,7 @@ class SymPattern:
         c = s.const()
         if c is not None:
             return self.rx.finditer(c)
-        raise Unsupported('finditer on a symbolic string')
+        return self.rx.finditer(s.concretize())
 
 
 class SymMatch:
